@@ -14,7 +14,7 @@ EXT = {
     # A-SLEEP: asyncio.sleep(d) returns no earlier than d seconds later on the perf_counter clock (its hidden result is the clock afterwards)
     "asyncio.sleep": dict(returns="real", ensures=["result >= $clock + a0"], ghost_update=("$clock", "result")),
     "self.schedule_handle": dict(returns=f"list[{Y}]"),
-    "self.schedule_handle.start": dict(returns="none"),
+    "self.schedule_handle.start": dict(ghost_set=("$started", "True")),  # starts the warm-up / time-period clock of the task
     "self.schedule_handle.ramp_up_wait_time": dict(attr=True, returns="real", ensures=["result >= 0"]),
     "self.schedule_handle.before_request": dict(returns="none"),
     "self.schedule_handle.after_request": dict(returns="none"),
@@ -43,9 +43,14 @@ CALL = dict(
     self_type="obj[AsyncExecutor]",
     params={"args": "any", "kwargs": "any"},
     fields=FIELDS,
-    ghost_state={"$clock": "real"},
+    ghost_state={"$clock": "real", "$started": "bool"},
+    requires=["not $started"],
     externals=EXT,
     at_call={
+        # the task's clock is started BEFORE the client waits for its ramp-up slot: warm-up and time period are measured from the start of the
+        # task, not from the (later) moment this client joins in
+        "asyncio.sleep@0": ["$started"],
+        "self.schedule_handle": ["not $started"],
         # no request of a throttled task is issued before its scheduled time
         "self.schedule_handle.before_request": [f"implies({THROTTLED}, a0 >= total_start + {SCHED})"],
         "self.sampler.add": AT_ADD,
